@@ -167,24 +167,28 @@ func c02Run(c c02Case) error {
 			}
 		}
 	}
-	// the same attempts behind r rejected ones; and the end of the budget
+	// the attempt behind r rejected ones is judged like the first
 	if cell.NRejected > 0 && len(cell.Rejected) > 0 {
-		if cell.All != nil {
-			for _, np := range c.Prefixes {
-				if np > 200 && len(cell.All) > 600 {
-					continue // cost
-				}
-				var rej [][]uint32
-				for i := 0; i < np; i++ {
-					rej = append(rej, cell.Rejected[(i+int(c.Key%7))%len(cell.Rejected)])
-				}
-				if _, err := chainCheck(r, cell, rej); err != nil {
-					return fmt.Errorf("behind %d rejected attempts: %w", np, err)
-				}
-				ev.Class(fmt.Sprintf("cell_behind_%d_rejections", np))
+		for _, np := range c.Prefixes {
+			if np > 200 && cell.Leaves > 600 {
+				continue // cost
 			}
+			var rej [][]uint32
+			for i := 0; i < np; i++ {
+				rej = append(rej, cell.Rejected[(i+int(c.Key%7))%len(cell.Rejected)])
+			}
+			pc, err := attemptBehind(r, rej, ev.Pick(20000, 200000)+10)
+			if ev.IsSkip(err) {
+				continue
+			}
+			if err != nil {
+				return fmt.Errorf("attempt %d (behind %d rejected ones): %w", np+1, np, err)
+			}
+			if err := checkCellUniform(sp, pc, valid); err != nil {
+				return fmt.Errorf("attempt %d (behind %d rejected ones): %w", np+1, np, err)
+			}
+			ev.Class(fmt.Sprintf("cell_behind_%d_rejections", np))
 		}
-		// (the end of the budget belongs to C13, not here)
 	}
 	return nil
 }
